@@ -55,6 +55,8 @@ type uriSpec struct {
 	Scheme string   `json:"scheme"` // onet-pubkey | other
 	Svc    string   `json:"svc"`    // "" for the server key
 	Name   nameSpec `json:"name"`
+	// Raw, if set, is the opaque part verbatim (malformed URIs: "nobody", "", ":", ":Zzz", ":Z0102")
+	Raw *string `json:"raw,omitempty"`
 }
 
 type sigSpec struct {
@@ -367,7 +369,13 @@ func (w *world) buildCert(cs *certSpec) ([]byte, error) {
 		if u.Scheme != "onet-pubkey" {
 			scheme = "other-scheme"
 		}
-		tmpl.URIs = append(tmpl.URIs, &url.URL{Scheme: scheme, Opaque: u.Svc + ":" + w.name(u.Name)})
+		var opaque string
+		if u.Raw != nil {
+			opaque = *u.Raw // malformed: not "<service>:<name>"
+		} else {
+			opaque = u.Svc + ":" + w.name(u.Name)
+		}
+		tmpl.URIs = append(tmpl.URIs, &url.URL{Scheme: scheme, Opaque: opaque})
 	}
 	if sig != nil {
 		tmpl.ExtraExtensions = append(tmpl.ExtraExtensions, pkix.Extension{Id: sigOID, Critical: false, Value: sig})
@@ -502,6 +510,15 @@ func coqSig(s sigSpec, cn nameSpec, tlskey int, ctx absCtx) string {
 func coqCert(c *certSpec, ctx absCtx) string {
 	var us []string
 	for _, u := range c.URIs {
+		if u.Raw != nil {
+			// no second colon / nothing after it / not a key: names no key, whatever the service part
+			name := "CNJunk"
+			if *u.Raw == ":" {
+				name = "CNEmpty"
+			}
+			us = append(us, fmt.Sprintf("URI %s %s %s", lib.Bool(u.Scheme == "onet-pubkey"), lib.Bool(strings.HasPrefix(*u.Raw, ":")), name))
+			continue
+		}
 		us = append(us, fmt.Sprintf("URI %s %s %s", lib.Bool(u.Scheme == "onet-pubkey"), lib.Bool(u.Svc == ""), coqName(u.Name)))
 	}
 	signer := ""
